@@ -336,6 +336,10 @@ func (r *fileRW) stmt(s ast.Stmt, at token.Pos) {
 	case *ast.SelectStmt:
 		site := r.site("select")
 		r.insert(at, fmt.Sprintf("sim.Yield(%q); ", site))
+		if at != s.Pos() {
+			fatal("cannot instrument: labelled select at %s", r.fset.Position(s.Pos()))
+		}
+		r.selectStmt(s, site)
 		for i, c := range s.Body.List {
 			cc := c.(*ast.CommClause)
 			r.insert(cc.Colon+1, fmt.Sprintf(" sim.Yield(%q);", fmt.Sprintf("%s.case%d", site, i)))
@@ -414,6 +418,102 @@ func (r *fileRW) expr(n ast.Node) {
 		}
 		return true
 	})
+}
+
+// selectStmt makes the choice among several ready cases a tape decision
+// instead of the runtime's random one: the cases are polled without blocking
+// in a tape-chosen order; only if none is ready does the goroutine block in
+// the original select (where the first waker decides).
+//
+//	select { case <-a: A; case v := <-b: B; case c <- e: C }
+//	=>
+//	{ simsel := -1; var simv1 T; sime2 := e
+//	  for _, simi := range sim.SelectOrder(3, "site") { switch simi {
+//	    case 0: select { case <-a: simsel = 0; default: }
+//	    case 1: select { case simv1 = <-b: simsel = 1; default: }
+//	    case 2: select { case c <- sime2: simsel = 2; default: } }
+//	    if simsel >= 0 { break } }
+//	  if simsel < 0 { select { case <-a: simsel = 0; case simv1 = <-b: simsel = 1; case c <- sime2: simsel = 2 } }
+//	  switch simsel { case 0: A; case 1: v := simv1; B; case 2: C } }
+func (r *fileRW) selectStmt(s *ast.SelectStmt, site string) {
+	type cs struct {
+		cc    *ast.CommClause
+		poll  string // comm text used in polls, with %d-free assignments
+		bind  string // text placed at the start of the body
+		decl  string
+		isDef bool
+	}
+	var cases []cs
+	ncomm := 0
+	for i, c := range s.Body.List {
+		cc := c.(*ast.CommClause)
+		x := cs{cc: cc}
+		switch comm := cc.Comm.(type) {
+		case nil:
+			x.isDef = true
+		case *ast.ExprStmt: // <-a
+			x.poll = r.text(comm)
+			ncomm++
+		case *ast.SendStmt: // c <- e
+			v := fmt.Sprintf("sime%d", i)
+			x.decl = fmt.Sprintf("%s := %s; ", v, r.text(comm.Value))
+			x.poll = fmt.Sprintf("%s <- %s", r.text(comm.Chan), v)
+			ncomm++
+		case *ast.AssignStmt:
+			if len(comm.Lhs) != 1 || len(comm.Rhs) != 1 {
+				fatal("cannot instrument: two-value receive in select at %s", r.fset.Position(comm.Pos()))
+			}
+			if comm.Tok == token.DEFINE {
+				u, ok := comm.Rhs[0].(*ast.UnaryExpr)
+				if !ok {
+					fatal("cannot instrument: select case at %s", r.fset.Position(comm.Pos()))
+				}
+				v := fmt.Sprintf("simv%d", i)
+				x.decl = fmt.Sprintf("%s := sim.ZeroOf(%s); ", v, r.text(u.X))
+				if ct, ok := r.info.TypeOf(u.X).Underlying().(*types.Chan); ok && ct.Dir() == types.RecvOnly {
+					x.decl = fmt.Sprintf("%s := sim.ZeroOfR(%s); ", v, r.text(u.X))
+				}
+				x.poll = fmt.Sprintf("%s = %s", v, r.text(comm.Rhs[0]))
+				x.bind = fmt.Sprintf(" %s := %s;", r.text(comm.Lhs[0]), v)
+			} else {
+				x.poll = r.text(comm)
+			}
+			ncomm++
+		default:
+			fatal("cannot instrument: select case at %s", r.fset.Position(cc.Pos()))
+		}
+		cases = append(cases, x)
+	}
+	if ncomm <= 1 {
+		return // at most one communication: nothing for the runtime to choose
+	}
+	var pre, polls, block strings.Builder
+	hasDef := -1
+	k := 0
+	pre.WriteString("{ simsel := -1; ")
+	for i, x := range cases {
+		if x.isDef {
+			hasDef = i
+			continue
+		}
+		pre.WriteString(x.decl)
+		fmt.Fprintf(&polls, "case %d: select { case %s: simsel = %d; default: }; ", k, x.poll, i)
+		fmt.Fprintf(&block, "case %s: simsel = %d; ", x.poll, i)
+		k++
+	}
+	fmt.Fprintf(&pre, "for _, simi := range sim.SelectOrder(%d, %q) { switch simi { %s}; if simsel >= 0 { break } }; ", ncomm, site, polls.String())
+	if hasDef >= 0 {
+		fmt.Fprintf(&pre, "if simsel < 0 { simsel = %d }; ", hasDef)
+	} else {
+		fmt.Fprintf(&pre, "if simsel < 0 { select { %s} }; ", block.String())
+	}
+	pre.WriteString("switch simsel {")
+	r.replace(s.Select, s.Body.Lbrace+1, pre.String())
+	for i, x := range cases {
+		r.replace(x.cc.Pos(), x.cc.Colon+1, fmt.Sprintf("case %d:%s", i, x.bind))
+	}
+	r.insert(s.Body.Rbrace+1, " }")
+	r.sites["select-choice"]++
 }
 
 func (r *fileRW) hasMethod(t types.Type, name string) bool {
